@@ -302,6 +302,7 @@ class Facts(object):
         self.recs_q = {}      # generic name -> [rec]
         self.enums = []
         self.vars = {}
+        self.var_list = []    # every global/static constant record (same name may occur in several units)
         self.macros = {}      # name -> [ {file,line,body} ]
         self.units = []
         self.errors = []
@@ -347,6 +348,7 @@ class Facts(object):
                 self.enums.append(rec)
             elif k == 'var':
                 self.vars.setdefault(rec['q'], rec)
+                self.var_list.append(rec)
                 pending.append(rec)
             elif k == 'macro':
                 self.macros.setdefault(rec['n'], []).append(rec)
